@@ -1,19 +1,17 @@
-(* C04 - GameSpy 1/2/3 replies are decoded completely (GameSpy 2: proved at the
-   query level; GameSpy 3: proved for the payloads of all packets; GameSpy 1: PARTIAL).
+(* C04 - GameSpy 1/2/3 replies are decoded completely (GameSpy 2 and 3: proved at the
+   query level; GameSpy 1: PARTIAL).
 
    The full statement - for every server state s,
      gs1_query / gs2_query / gs3_query on the script of s = Ok (expected s)
    - is proved for GameSpy 2 (c04_gs2_decoded_completely: every variable, every
    player and team cell, any column order, unknown columns, unknown variables).
-   For GameSpy 3 the decoding of the packet payloads is proved
-   (c04_gs3_payloads_decoded_completely: all variables, all players over any
-   number of packets, re-sent names, teams); the step from datagrams to payloads
-   (header, packet numbers) is covered by C08's reassembly theorem and by the
-   correspondence run, not proved here.  For GameSpy 1 the '\key\value' grammar
+   GameSpy 3 is proved as well (c04_gs3_decoded_completely: handshake, data
+   request, all packets in the order sent, all variables, all players over any
+   number of packets, re-sent names, teams; other arrival orders are C08).  For GameSpy 1 the '\key\value' grammar
    is decoded exactly, pair by pair and in order; the rest is checked by
    evaluation on generated states in the correspondence run (Examples here). *)
 From GD Require Import Base.Prelude Model.Strings Model.StrOps Model.Buffer Model.Net Model.Valve Model.Gamespy.
-From GD Require Import Spec.Rand Spec.ValveSpec Spec.QuakeSpec Spec.GamespySpec Proofs.Str Proofs.GamespyProofs Proofs.Gamespy2Roundtrip Proofs.Jc2mRoundtrip Proofs.Gamespy3Roundtrip Proofs.Gamespy3Reply.
+From GD Require Import Spec.Rand Spec.ValveSpec Spec.QuakeSpec Spec.GamespySpec Proofs.Str Proofs.GamespyProofs Proofs.Gamespy2Roundtrip Proofs.Jc2mRoundtrip Proofs.Gamespy3Roundtrip Proofs.Gamespy3Reply Proofs.Gamespy3Query.
 
 Theorem c04_gs1_pairs_partial : forall k v l m,
   Forall (fun kv => no_delim 92 (fst kv) /\ no_delim 92 (snd kv)) ((k, v) :: l) ->
@@ -81,6 +79,19 @@ Print Assumptions c04_wf_s3_means.
 Theorem c04_gs3_payloads_decoded_completely : forall s, wf_s3 s = true -> gs3_build (s3_payloads s) = Ok (s3_expected s).
 Proof. exact gs3_roundtrip. Qed.
 Print Assumptions c04_gs3_payloads_decoded_completely.
+
+(* the whole query: socket, handshake with the challenge, data request, every packet in the order sent,
+   reassembly, decoding.  The side conditions are those of the transport: the challenge is an i32 whose text
+   fits the 16-byte handshake receive, at most 128 packets (7-bit packet number), each within the 2048-byte receive *)
+Theorem c04_gs3_decoded_completely : forall port s, wf_s3 s = true ->
+  (- 2147483648 <= s3_challenge s < 2147483648)%Z -> (length (show_Z (s3_challenge s)) <= 10)%nat ->
+  (length (s3_payloads s) <= 128)%nat -> Forall (fun p => (length p + 17 <= 2048)%nat) (s3_payloads s) ->
+  fst (gs3_query port None (script_net (s3_script s))) = Ok (s3_expected s).
+Proof. exact gs3_query_roundtrip. Qed.
+Print Assumptions c04_gs3_decoded_completely.
+Example c04_ex_gs3_query_hyps : (- 2147483648 <= s3_challenge ex_s3 < 2147483648)%Z /\ (length (show_Z (s3_challenge ex_s3)) <= 10)%nat
+  /\ (length (s3_payloads ex_s3) <= 128)%nat /\ forallb (fun p => (length p + 17 <=? 2048)%nat) (s3_payloads ex_s3) = true.
+Proof. exact ex_s3_query. Qed.
 
 (* the hypotheses are met by a server with three packets, a cut name sent again, teams and its own variable *)
 Example c04_ex_gs3_wf : wf_s3 ex_s3 = true /\ (length (s3_payloads ex_s3) = 3)%nat.
